@@ -55,8 +55,13 @@ func calleeIdent(call *ast.CallExpr) *ast.Ident {
 
 // recognise collects sections, archetypes, procedures and operator functions of a generated package.
 func recognise(pk *load.Package, canon *Canon, tabs *scalatab.Tables, fset *token.FileSet) *GoSide {
+	return recogniseWith(pk, canon, tabs, fset, nil)
+}
+
+func recogniseWith(pk *load.Package, canon *Canon, tabs *scalatab.Tables, fset *token.FileSet, specWith map[string]map[string]bool) *GoSide {
 	gs := &GoSide{Sections: map[string]*GoSection{}, Archetypes: map[string]*GoArchetype{}, Procs: map[string]*GoProc{}, Ops: map[string]*GoOp{}}
 	r := newRec(pk.Info, fset, canon, tabs)
+	r.SpecWith = specWith
 	typeIs := func(e ast.Expr, name string) bool {
 		n, ok := pk.Info.TypeOf(e).(*types.Named)
 		return ok && n.Obj().Pkg() != nil && n.Obj().Pkg().Path() == pkgDistsys && n.Obj().Name() == name
@@ -305,7 +310,44 @@ func MatchPair(pk *load.Package, tlaPath string, tabs *scalatab.Tables, fset *to
 		return obs
 	}
 	canon := NewCanon(tabs, spec)
-	gs := recognise(pk, canon, tabs, fset)
+	specWith := map[string]map[string]bool{}
+	for _, u := range spec.Units {
+		secs, err := spec.Sections(u)
+		if err != nil {
+			continue
+		}
+		for _, sc := range secs {
+			names := map[string]bool{}
+			var walk func(ss []Stmt)
+			walk = func(ss []Stmt) {
+				for _, st := range ss {
+					switch x := st.(type) {
+					case *With:
+						for _, d := range x.Decls {
+							if !d.IsSet {
+								names[canon.Ident(d.Name)] = true
+							}
+						}
+						walk(x.Body)
+					case *If:
+						walk(x.Then)
+						walk(x.Else)
+					case *Either:
+						for _, cs := range x.Cases {
+							walk(cs)
+						}
+					case *While:
+						walk(x.Body)
+					case *Labeled:
+						walk(x.Body)
+					}
+				}
+			}
+			walk(sc.Body)
+			specWith[u.Name+"."+sc.Label] = names
+		}
+	}
+	gs := recogniseWith(pk, canon, tabs, fset, specWith)
 	filePos := token.NoPos
 	if len(pk.Files) > 0 {
 		filePos = pk.Files[0].Pos()
